@@ -82,8 +82,18 @@ Proof. apply digit_char. Qed.
 Lemma days_in_month_le y m : (days_in_month y m <= 31)%Z.
 Proof. unfold days_in_month. destruct (m =? 2)%Z; [destruct (is_leap y); lia|]. destruct ((m =? 4) || (m =? 6) || (m =? 9) || (m =? 11))%Z; lia. Qed.
 
-Section R.
-  Context (vc : text -> bool).
+Lemma four_digit_val y : y < 10000 -> (((0 * 10 + y / 1000) * 10 + (y / 100) mod 10) * 10 + (y / 10) mod 10) * 10 + y mod 10 = y.
+Proof.
+  intros H. pose proof (N.div_mod y 10 ltac:(discriminate)). pose proof (N.div_mod (y / 10) 10 ltac:(discriminate)).
+  pose proof (N.div_mod (y / 100) 10 ltac:(discriminate)).
+  assert (y / 10 / 10 = y / 100) by (rewrite N.div_div by discriminate; reflexivity).
+  assert (y / 100 / 10 = y / 1000) by (rewrite N.div_div by discriminate; reflexivity).
+  lia.
+Qed.
+Lemma two_digit_val m : (0 * 10 + m / 10) * 10 + m mod 10 = m.
+Proof. pose proof (N.div_mod m 10 ltac:(discriminate)). lia. Qed.
+Lemma mod10_lt x : x mod 10 < 10. Proof. apply N.mod_lt. discriminate. Qed.
+
 
   Lemma p_date_print d rest : wf_date d -> p_date (print_date d ++ rest) = POk d None rest.
   Proof.
@@ -94,15 +104,15 @@ Section R.
     unfold print_date, four_digits, two_digits. cbn [app].
     set (y := Z.to_N (dy d)). set (m := Z.to_N (dm d)). set (a := Z.to_N (dd d)).
     assert (Hy : y < 10000) by (unfold y; lia). assert (Hmm : m < 100) by (unfold m; lia). assert (Ha : a < 100) by (unfold a; lia).
-    destruct (dig (y / 1000)) as [Y1 V1]; [lia|]. destruct (dig ((y / 100) mod 10)) as [Y2 V2]; [lia|].
-    destruct (dig ((y / 10) mod 10)) as [Y3 V3]; [lia|]. destruct (dig (y mod 10)) as [Y4 V4]; [lia|].
-    destruct (dig (m / 10)) as [M1 W1]; [lia|]. destruct (dig (m mod 10)) as [M2 W2]; [lia|].
-    destruct (dig (a / 10)) as [D1 X1]; [lia|]. destruct (dig (a mod 10)) as [D2 X2]; [lia|].
+    destruct (dig (y / 1000)) as [Y1 V1]; [lia|]. destruct (dig ((y / 100) mod 10)) as [Y2 V2]; [apply mod10_lt|].
+    destruct (dig ((y / 10) mod 10)) as [Y3 V3]; [apply mod10_lt|]. destruct (dig (y mod 10)) as [Y4 V4]; [apply mod10_lt|].
+    destruct (dig (m / 10)) as [M1 W1]; [lia|]. destruct (dig (m mod 10)) as [M2 W2]; [apply mod10_lt|].
+    destruct (dig (a / 10)) as [D1 X1]; [lia|]. destruct (dig (a mod 10)) as [D2 X2]; [apply mod10_lt|].
     unfold p_date. rewrite Y1, Y2, Y3, Y4, M1, M2, D1, D2. replace (code (ch 45) =? 45) with true by reflexivity. cbn [andb].
     cbn [digits_val]. rewrite V1, V2, V3, V4, W1, W2, X1, X2.
     assert (E : {| dy := Z.of_N ((((0 * 10 + y / 1000) * 10 + (y / 100) mod 10) * 10 + (y / 10) mod 10) * 10 + y mod 10);
                    dm := Z.of_N ((0 * 10 + m / 10) * 10 + m mod 10); dd := Z.of_N ((0 * 10 + a / 10) * 10 + a mod 10) |} = d).
-    { destruct d as [yy mm ddd]. cbn [dy dm dd] in *. f_equal; lia. }
+    { rewrite (four_digit_val y Hy), !two_digit_val. unfold y, m, a. destruct d as [yy mm ddd]. cbn [dy dm dd] in *. f_equal; lia. }
     rewrite E, Hv. reflexivity.
   Qed.
 
@@ -143,4 +153,91 @@ Section R.
     rewrite E in *. cbn [List.length] in *. destruct (S (List.length r) - d_scale d)%nat as [|n] eqn:En; [lia|].
     cbn [firstn app]. eexists. eexists. repeat split; eassumption.
   Qed.
-End R.
+
+
+Section R2.
+  Context (vc : text -> bool).
+
+  (* ---------- currency codes ---------- *)
+  Definition wf_cur (c : text) : Prop :=
+    exists a b e, c = [a; b; e] /\ is_upper a = true /\ is_upper b = true /\ is_upper e = true /\
+                  vc c = true /\ c <> KW_TAX /\ c <> KW_BUY.
+  Definition wf_money (m : money) : Prop := dec_ok (m_amt m) = true /\ wf_cur (m_cur m).
+
+  Lemma starts_kw3 k1 k2 k3 a b e rest : is_lower a = false -> is_lower b = false -> is_lower e = false ->
+    [a; b; e] <> [k1; k2; k3] -> starts_kw [k1; k2; k3] (a :: b :: e :: rest) = false.
+  Proof.
+    intros La Lb Le Hne. unfold starts_kw. cbn [kw_prefix]. rewrite (upper_id a La), (upper_id b Lb), (upper_id e Le).
+    destruct (N.eqb_spec (code a) (code k1)) as [E1|]; [|reflexivity].
+    destruct (N.eqb_spec (code b) (code k2)) as [E2|]; [|reflexivity].
+    destruct (N.eqb_spec (code e) (code k3)) as [E3|]; [|reflexivity].
+    exfalso. apply Hne. rewrite (code_inj _ _ E1), (code_inj _ _ E2), (code_inj _ _ E3). reflexivity.
+  Qed.
+  Lemma starts_kw4 k1 k2 k3 k4 kr a b e rest : ends rest -> code k4 <> 32 ->
+    starts_kw (k1 :: k2 :: k3 :: k4 :: kr) (a :: b :: e :: rest) = false.
+  Proof.
+    intros He Hk. unfold starts_kw. cbn [kw_prefix].
+    destruct (code (upper a) =? code k1); [|reflexivity]. destruct (code (upper b) =? code k2); [|reflexivity].
+    destruct (code (upper e) =? code k3); [|reflexivity].
+    destruct He as [->|[r ->]]; cbn [kw_prefix]; [reflexivity|].
+    replace (code (upper SPC)) with 32 by reflexivity.
+    destruct (N.eqb_spec 32 (code k4)) as [E|]; [|reflexivity]. exfalso. apply Hk. symmetry. exact E.
+  Qed.
+
+  Lemma lex_currency_print c rest : wf_cur c -> ends rest -> lex_currency (c ++ rest) = Some (c, rest).
+  Proof.
+    intros (a & b & e & -> & Ua & Ub & Ue & _ & Htax & Hbuy) He.
+    pose proof (upper_not_lower a Ua) as La. pose proof (upper_not_lower b Ub) as Lb. pose proof (upper_not_lower e Ue) as Le.
+    unfold lex_currency. cbn [app]. unfold KW_TAX, KW_BUY, KW_FEES, KW_TOTAL, KW_RATIO, KW_SELL, T. cbn [list_ascii_of_string].
+    rewrite (starts_kw3 "T" "A" "X" a b e rest La Lb Le Htax), (starts_kw3 "B" "U" "Y" a b e rest La Lb Le Hbuy).
+    rewrite (starts_kw4 "F" "E" "E" "S" [] a b e rest He ltac:(discriminate)).
+    rewrite (starts_kw4 "T" "O" "T" "A" ["L"%char] a b e rest He ltac:(discriminate)).
+    rewrite (starts_kw4 "R" "A" "T" "I" ["O"%char] a b e rest He ltac:(discriminate)).
+    rewrite (starts_kw4 "S" "E" "L" "L" [] a b e rest He ltac:(discriminate)).
+    cbn [orb]. unfold is_alpha. rewrite Ua, Ub, Ue. cbn [orb andb].
+    rewrite (upper_id a La), (upper_id b Lb), (upper_id e Le).
+    destruct He as [->|[r ->]]; reflexivity.
+  Qed.
+
+  Lemma tok_cur c : wf_cur c -> tok c.
+  Proof.
+    intros (a & b & e & -> & Ua & _). destruct (alnum_not_blank a (upper_alnum a Ua)) as (A & B & _).
+    exists a, [b; e]. repeat split; assumption.
+  Qed.
+
+  Lemma p_money_print m rest : wf_money m -> ends rest ->
+    p_money vc (print_dec (m_amt m) ++ SP ++ m_cur m ++ rest) = POk m None rest.
+  Proof.
+    intros [Hd Hc] He. unfold p_money. rewrite (p_decimal_print (m_amt m) _ Hd (ends_sp _)).
+    rewrite (skip_sp_tok _ rest (tok_cur _ Hc)), (lex_currency_print _ _ Hc He).
+    destruct Hc as (a & b & e & Ec & _ & _ & _ & Hv & _). rewrite Hv. destruct m; reflexivity.
+  Qed.
+
+  Lemma dec_ok_mant d : dec_ok d = true -> d_mant d < two96.
+  Proof. unfold dec_ok. intros H. apply andb_true_iff in H. destruct H as [H _]. apply N.ltb_lt. exact H. Qed.
+
+  Lemma p_kw_money_print kw m rest : no_lower kw -> wf_money m -> ends rest ->
+    p_kw_money vc kw (kw ++ SP ++ print_dec (m_amt m) ++ SP ++ m_cur m ++ rest) = POk m None rest.
+  Proof.
+    intros Hk Hm He. unfold p_kw_money. rewrite (kw_prefix_app kw _ Hk).
+    rewrite (skip_sp_tok _ _ (print_dec_tok _ (dec_ok_mant _ (proj1 Hm)))). apply p_money_print; assumption.
+  Qed.
+
+  Definition opt_flat (kw : text) (m : money) : text :=
+    if is_zero_money m then [] else SP ++ kw ++ SP ++ print_dec (m_amt m) ++ SP ++ m_cur m.
+  Lemma opt_clause_flat kw m : opt_clause kw m = opt_flat kw m.
+  Proof. unfold opt_clause, opt_flat, print_money. destruct (is_zero_money m); [reflexivity|]. repeat rewrite <- app_assoc. reflexivity. Qed.
+  Lemma ends_opt_flat kw m : ends (opt_flat kw m).
+  Proof. unfold opt_flat. destruct (is_zero_money m); [apply ends_nil|apply ends_sp]. Qed.
+
+  Lemma p_opt_print kw m : no_lower kw -> tok kw -> wf_money m ->
+    p_opt_kw_money vc kw (opt_flat kw m) = POk (norm_money m) None [].
+  Proof.
+    intros Hk Ht Hm. unfold p_opt_kw_money, opt_flat, norm_money. destruct (is_zero_money m).
+    - rewrite skip_nil. destruct Ht as (c & r & -> & _). reflexivity.
+    - rewrite (skip_sp_tok kw _ Ht), (kw_prefix_app kw _ Hk).
+      rewrite (skip_sp_tok _ _ (print_dec_tok _ (dec_ok_mant _ (proj1 Hm)))).
+      replace (m_cur m) with (m_cur m ++ []) by apply app_nil_r.
+      rewrite (p_money_print m [] Hm ends_nil). reflexivity.
+  Qed.
+End R2.
